@@ -62,6 +62,12 @@ pub fn blocks(thorough: bool) -> Vec<Block> {
         b.push(Block::new(u_prefix_suffix2(4), vec![Cfg::new(D), Cfg::new(W), Cfg::new(D | W), Cfg::new(D | R), Cfg::new(NW | D)], "d, w, d+w, d+r, W+d"));
         b.push(Block::new(u_kind_triples(), class_cfgs(&[0]), "64 class subsets"));
     }
+    if thorough {
+        // the thorough space is a superset of the quick one: every quick block first, then the deeper ones
+        let mut all = blocks(false);
+        all.extend(b);
+        return all;
+    }
     b
 }
 
